@@ -265,8 +265,19 @@ def part_glob(ctx, cfg):
     if children:
         ctx.goal('glob child from state')
     proc = P({'schema': schema})
-    e = Engine(processes=nest({'p': proc}, parent),
-               topology=nest({'p': {'port': ('G',)}}, parent),
+    procs = {'p': proc}
+    topo = {'p': {'port': ('G',)}}
+    if ctx.flag('second_declaration'):
+        # another process declares the same glob with overlapping keys:
+        # the declarations are merged (deeply), none replaces the other
+        procs['p2'] = P({'schema': {'port': {'*': {
+            'v': {'_emit': True}, 'deep': {'w2': {'_default': 8}}}}}})
+        topo['p2'] = {'port': ('G',)}
+        second = True
+    else:
+        second = False
+    e = Engine(processes=nest(procs, parent),
+               topology=nest(topo, parent),
                initial_state=copy.deepcopy(init), display_info=False,
                emitter='null')
     val = get(e.state.get_value(), parent + ('G',), {})
@@ -276,5 +287,7 @@ def part_glob(ctx, cfg):
         cl.append(EQ(node.get('v'), given.get(c, dv)))
         cl.append(EQ(node.get('u'), du))
         cl.append(get(node, ('deep', 'w'), None) == 7)
+        if second:
+            cl.append(get(node, ('deep', 'w2'), None) == 8)
     ctx.claim('C15.glob', AND(cl), sig='glob', info=lambda: dict(
         children=children, given=given, got=val))
